@@ -2,11 +2,13 @@
 their args."""
 from __future__ import annotations
 
+import itertools
 from typing import List, Optional
 
 from .. import terms as tm
 from ..interp import Interp
-from ..lib import comparisons, fmt, is_call_to, per_element, sweep
+from ..lib import comparisons, fmt, is_call_to, keyed_writes, per_element, \
+    sweep
 from ..terms import T, const
 from .c17 import find_sinks
 
@@ -110,18 +112,94 @@ def _set_config(ctx, prog):
     apps = [e for e in r.of_kind("call") if e.data.get("mutates_recv") and
             e.data["name"] == ".append"]
     kinds = set()
-    for e in apps:
-        a = e.data["args"][0]
-        if is_call_to(a, "builtins.int"):
-            kinds.add("int")
-        elif is_call_to(a, "builtins.float"):
-            kinds.add("float")
-        elif is_call_to(a, MC + "to_number"):
-            kinds.add("int")
-            kinds.add("float")
+    misguarded = []
+
+    def alternatives(t: T, cond: T):
+        if t.op == "ite":
+            yield from alternatives(t.args[1], tm.mk_and(cond, t.args[0]))
+            yield from alternatives(t.args[2],
+                                    tm.mk_and(cond, tm.mk_not(t.args[0])))
         else:
-            kinds.add("str")
-    ok = {"int", "float", "str"} <= kinds
+            yield t, cond
+    for e in apps:
+        for a, cond in alternatives(e.data["args"][0], e.live):
+            isnum = [x for x in tm.atoms(cond)
+                     if is_call_to(x, MC + "is_number")]
+            if is_call_to(a, "builtins.int"):
+                kind = {"int"}
+            elif is_call_to(a, "builtins.float"):
+                kind = {"float"}
+            elif is_call_to(a, MC + "to_number"):
+                kind = {"int", "float"}
+            else:
+                kind = {"str"}
+            kinds |= kind
+            # numbers only for numeric tokens, raw strings only otherwise
+            if isnum and tm.fold(cond, lambda t, v=(kind == {"str"}):
+                                 v if t in isnum else None) is not False:
+                misguarded.append((fmt(a), fmt(cond)))
+    ok = {"int", "float", "str"} <= kinds and not misguarded
+    # what separates the int alternative from the float alternative
+    int_conds = [cond for e in apps
+                 for a, cond in alternatives(e.data["args"][0], e.live)
+                 if is_call_to(a, "builtins.int")]
+    flt_conds = [cond for e in apps
+                 for a, cond in alternatives(e.data["args"][0], e.live)
+                 if is_call_to(a, "builtins.float")]
+    if ok and int_conds and flt_conds:
+        def required(cond: T, a: T):
+            """truth value atom `a` must have for `cond` to hold, if any"""
+            ats = [x for x in tm.atoms(cond) if x is not a]
+            if len(ats) > 10:
+                for v in (True, False):
+                    if tm.fold(cond, lambda t: (not v) if t is a
+                               else None) is False:
+                        return v
+                return None
+            possible = set()
+            for bits in itertools.product((True, False), repeat=len(ats)):
+                env = dict(zip(map(id, ats), bits))
+                for v in (True, False):
+                    env[id(a)] = v
+                    if tm.fold(cond, lambda t: env.get(id(t))) is not False:
+                        possible.add(v)
+            return possible.pop() if len(possible) == 1 else None
+        deciding = []
+        for a in tm.atoms(int_conds[0]):
+            ri = required(int_conds[0], a)
+            rf = required(flt_conds[0], a)
+            if ri is not None and rf is not None and ri != rf:
+                deciding.append(a)
+
+        def numeric(c: T) -> bool:
+            return any(is_call_to(x, ".is_integer") and is_call_to(
+                tm.method_recv(x), "builtins.float") for x in c.walk()) or (
+                c.op == "cmp" and
+                any(is_call_to(x, "builtins.int") for x in c.walk()) and
+                any(is_call_to(x, "builtins.float") for x in c.walk()))
+
+        def lexical(c: T) -> bool:
+            return any(is_call_to(x, ".isdigit", ".isnumeric", ".isdecimal",
+                                  ".count", ".find", ".endswith",
+                                  ".startswith", "re.match", "re.fullmatch")
+                       for x in c.walk()) or (
+                c.op == "cmp" and c.args[0] in ("In", "NotIn") and
+                tm.is_const(c.args[1]) and isinstance(c.args[1].args[1], str))
+        lex = [c for c in deciding if lexical(c)]
+        if lex:
+            ctx.ob("C18.2", apps[0], False,
+                   f"set: int vs float is decided by the spelling of the "
+                   f"token ({fmt(lex[0])}), not by its numeric value: "
+                   f"'2.0' / '1e3' become floats although integral",
+                   key="C18.2:set-integral-numeric")
+        elif deciding and all(numeric(c) for c in deciding):
+            ctx.ob("C18.2", apps[0], True,
+                   "set: int iff the numeric value is integral",
+                   key="C18.2:set-integral-numeric")
+        else:
+            ctx.undecidable("C18.2", apps[0], f"set: test separating int "
+                            f"from float tokens not recognised: "
+                            f"{[fmt(c) for c in deciding]}")
     ctx.ob("C18.2", f, ok,
            "set: numeric tokens become int (integral) or float, others stay "
            "strings" if ok else
@@ -181,21 +259,19 @@ def _reset(ctx, prog):
     DEF = [x for e in r.events for x in (e.data.get("value") or tm.NONE)
            .walk() if x.op in ("global", "named") and
            x.args[0].endswith("DEFAULT_SETTINGS_DICT")]
-    stores = r.of_kind("setitem")
+    stores = keyed_writes(r)
     ok = False
-    if len(stores) == 1:
-        e = stores[0]
-        k = e.data["index"]
-        v = e.data["value"]
+    if len(stores) == 1 and stores[0][0] is not None:
+        k, v, guard, e = stores[0]
         from_default = v.op == "sub" and v.args[1] is k and \
             v.args[0].op in ("global", "named") and \
             v.args[0].args[0].endswith("DEFAULT_SETTINGS_DICT")
         in_subset = k.op == "elem" and k.args[0] is tm.param(
             "parameter_subset")
-        mem = [a for a in tm.atoms(e.live) if a.op == "cmp" and
+        mem = [a for a in tm.atoms(guard) if a.op == "cmp" and
                a.args[0] in ("In", "NotIn") and a.args[1] is k]
         guarded = bool(mem) and tm.fold(
-            e.live, lambda t: (mem[0].args[0] == "NotIn") if t is mem[0]
+            guard, lambda t: (mem[0].args[0] == "NotIn") if t is mem[0]
             else None) is False
         ok = from_default and in_subset and guarded
     ctx.ob("C18.3", f, ok,
